@@ -570,7 +570,9 @@ func (w *discWorld) deliver(f *discFlight) {
 	}
 	stim := w.classify(nd, f.d, f.from)
 	w.curForged = w.forged[f.d.ID]
-	nd.Ctrl.InjectUDPPacket(&udp.Packet{To: f.d.To, From: f.from, Data: append([]byte(nil), f.d.Data...)})
+	if !(w.Debug && len(f.d.Data) < header.Len) { // the tester socket panics on sub-header datagrams at debug level; nodes ignore them
+		nd.Ctrl.InjectUDPPacket(&udp.Packet{To: f.d.To, From: f.from, Data: append([]byte(nil), f.d.Data...)})
+	}
 	discWait()
 	w.store = append(w.store, f)
 	w.logStep(nd, stim)
@@ -771,7 +773,7 @@ func TestVerif_Disc(t *testing.T) {
 	res := vNewResult()
 	defer res.Write(t)
 	seed := vSeed()
-	traces, steps := 10, 160
+	traces, steps := 30, 200
 	if !vQuick() {
 		traces, steps = 480, 280
 	}
